@@ -432,6 +432,29 @@ prim("emit_jump_offset", r"let jump = Jump \{ offset_loc: mem\.offset, target_pc
      lambda m: ["/-- `emit_jump_offset`: the location of the 32-bit field is recorded with its target, the field is emitted as 0 -/",
                 "def emitJumpOffsetSrc (e : Em) (targetPc : Int) : Em := emit4 { e with jumps := e.jumps.push (e.code.size, targetPc) } 0", ""])
 lines += ["def primsSrcOk : Bool := %s" % " && ".join(PRIMS), ""]
+# ---- shapes recognised as wholes: `resolve_jumps` (target = the anchor for a special target, else pc_locs[target]; rel32 = target - (field + 4), written little-endian
+# into the field; nothing written in the size-only pass) and the std `JitMemory::new` (size-only pass, buffer = page-rounded max(size, one page), second pass, resolve_jumps)
+try:
+    _p, rb = fn_body("resolve_jumps"); rb = " ".join(rb.split())
+    rj = bool(re.fullmatch(r"for jump in &self\.jumps \{ let target_loc = match self\.special_targets\.get\(&jump\.target_pc\) \{ Some\(target\) => \*target, None => self\.pc_locs\[jump\.target_pc as usize\], \}; "
+                           r"if !mem\.write_enabled \{ continue; \} unsafe \{ let offset_loc = jump\.offset_loc as i32 \+ core::mem::size_of::<i32>\(\) as i32; let rel = &\(target_loc as i32 - offset_loc\) as \*const i32; "
+                           r"let offset_ptr = mem\.contents\.as_mut_ptr\(\)\.add\(jump\.offset_loc\); ptr::copy_nonoverlapping\(rel\.cast::<u8>\(\), offset_ptr, core::mem::size_of::<i32>\(\)\); \} \} Ok\(\(\)\)", rb))
+    nm = re.search(r'#\[cfg\(feature = "std"\)\]\s*pub fn new\(', txt)
+    nb0 = txt.index("{", txt.index("Result<JitMemory<'a>, Error>", nm.end())); nbody = " ".join(txt[nb0 + 1:balanced(txt, nb0) - 1].split())
+    nw = bool(re.fullmatch(r"let layout; let mut counter = JitMemory::counter\(\); let mut jit = JitCompiler::new\(\); jit\.jit_compile\(&mut counter, prog, use_mbuff, update_data_ptr, helpers\)\?; "
+                           r"let size = round_up_to_page\(counter\.offset\.max\(PAGE_SIZE\)\); let contents = unsafe \{ layout = std::alloc::Layout::from_size_align_unchecked\(size, PAGE_SIZE\); let ptr = std::alloc::alloc\(layout\); "
+                           r"if ptr\.is_null\(\) \{ return Err\(Error::from\(std::io::ErrorKind::OutOfMemory\)\); \} libc::mprotect\(ptr\.cast\(\), size, libc::PROT_EXEC \| libc::PROT_WRITE\); std::slice::from_raw_parts_mut\(ptr, size\) \}; "
+                           r"let contents: &'a mut \[u8\] = unsafe \{ mem::transmute\(contents\) \}; let mut mem = JitMemory \{ contents, write_enabled: true, (?:#\[cfg\(rbpf_verif\)\] verif_pass1_size: counter\.offset, )?layout, offset: 0, \}; "
+                           r"let mut jit = JitCompiler::new\(\); jit\.jit_compile\(&mut mem, prog, use_mbuff, update_data_ptr, helpers\)\?; jit\.resolve_jumps\(&mut mem\)\?; Ok\(mem\)", nbody))
+    pg = re.search(r"const PAGE_SIZE: usize = (\d+);", txt)
+    ru = re.search(r"fn round_up_to_page\((?:value|size): usize\) -> usize \{ (.*?) \}", " ".join(txt.split()))
+    ru_ok = bool(ru and ru.group(1).replace(" ", "") in ("(size+PAGE_SIZE-1)&!(PAGE_SIZE-1)", "(value+PAGE_SIZE-1)&!(PAGE_SIZE-1)"))
+    lines += ["/-- `resolve_jumps` and the std `JitMemory::new` have the shapes the model's `resolveJumps` / `compile` / `bufferSize` mirror -/",
+              "def resolveJumpsShape : Bool := %s" % ("true" if rj else "false"), "def jitMemoryNewShape : Bool := %s" % ("true" if nw else "false"),
+              "def pageSizeSrc : Nat := %s" % (pg.group(1) if pg else "0"), "def roundUpShape : Bool := %s" % ("true" if ru_ok else "false"), ""]
+except Exception as ex:
+    problems.append("resolve_jumps / JitMemory::new: %s" % ex)
+    lines += ["def resolveJumpsShape : Bool := false", "def jitMemoryNewShape : Bool := false", "def pageSizeSrc : Nat := 0", "def roundUpShape : Bool := false", ""]
 for p in problems: lines.append("/- not translated: %s -/" % p.replace("-/", "- /"))
 lines += ["end Rbpf.Generated.Jit", ""]
 new = "\n".join(lines)
